@@ -568,7 +568,8 @@ def classify(src, ext, vd, forced=None):
             return "def_in_match_case_c_error"
         return "c_error:" + re.sub(r"[0-9]+", "N", re.sub(r"[^A-Za-z0-9_ ]+", "", detail))[:60].strip().replace(" ", "_")
     if kind == "positioned":
-        if "imag_literal_leading_zero_underscore" in f and "Syntax error in simple statement list" in detail:
+        if "imag_literal_leading_zero_underscore" in f and (
+                "Syntax error in simple statement list" in detail or re.search(r"found '_[0-9_]*[jJ]'", detail)):
             return "imag_literal_leading_zero_underscore"
         return "valid_python_rejected:" + re.sub(r"'[^']*'", "'_'", detail)[:60].strip().replace(" ", "_")
     return kind + ":" + re.sub(r"[^A-Za-z0-9_]+", "_", detail)[:50]
@@ -604,7 +605,7 @@ def judge(ctx, src, ext, r, py_ok, forced=None):
         if "pep695" in _src_features(src):
             return None
         bad = [m_ for m_ in msgs if not allowlisted(m_)]
-        k = classify(src, ext, ("positioned", bad[0]), forced)
+        k = classify(src, ext, ("positioned", " | ".join(bad[:2]) if "_7j" in "".join(bad) or "found '_" in "".join(bad) else bad[0]), forced)
         ctx.fail(k, inp, ["positioned", bad[:3]], "CPython compiles this text: accepted, or rejected with an allowlisted message")
         return k
     return None
